@@ -541,3 +541,69 @@ package yqlib
 
 //@ func getAssignPreferences
 //@   props C02 C11
+
+// ---------------------------------------------------------------------------------------------
+// attribute assignment operators (C07): the operator's own stores touch exactly the named attribute of
+// document nodes; evaluating the LHS/RHS is the dispatcher's business (nocallframe)
+
+//@ func assignTagOperator
+//@   props C07 C11
+//@   nocallframe
+//@   requires validCtx(context) && expressionNode != nil && expressionNode.Operation != nil
+//@   modifies anynode.Tag
+//@   ensures @returns-input-context implies(result1 == nil, result0 == context)
+//@   loop 1:
+//@     invariant nodeList(lhs.MatchingNodes)
+
+//@ func assignStyleOperator
+//@   props C07 C11
+//@   nocallframe
+//@   requires validCtx(context) && expressionNode != nil && expressionNode.Operation != nil
+//@   modifies anynode.Style
+//@   ensures @returns-input-context implies(result1 == nil, result0 == context)
+//@   loop 1:
+//@     invariant nodeList(lhs.MatchingNodes)
+
+//@ func parseStyle
+//@   props C07 C11
+
+//@ func (*CandidateNode).GetKey
+//@   props C11
+//@   requires n != nil
+
+//@ func assignCommentsOperator
+//@   props C07 C11
+//@   nocallframe
+//@   requires validCtx(context) && expressionNode != nil && expressionNode.Operation != nil && istype(expressionNode.Operation.Preferences, commentOpPreferences)
+//@   modifies anynode.LineComment, anynode.HeadComment, anynode.FootComment, anynode.LeadingContent
+//@   ensures @returns-input-context implies(result1 == nil, result0 == context)
+//@   loop 1:
+//@     invariant nodeList(lhs.MatchingNodes)
+
+//@ func assignAnchorOperator
+//@   props C07 C11
+//@   nocallframe
+//@   requires validCtx(context) && expressionNode != nil && expressionNode.Operation != nil
+//@   modifies anynode.Anchor
+//@   ensures @returns-input-context implies(result1 == nil, result0 == context)
+//@   loop 1:
+//@     invariant nodeList(lhs.MatchingNodes)
+
+//@ func assignAttributesOperator
+//@   props C07 C02 C11
+//@   nocallframe
+//@   requires validCtx(context) && expressionNode != nil && expressionNode.Operation != nil && implies(expressionNode.Operation.Preferences != nil, istype(expressionNode.Operation.Preferences, assignPreferences))
+//@   modifies anynode.Content, anynode.Value, anynode.Kind, anynode.Tag, anynode.Alias, anynode.Anchor, anynode.Style, anynode.FootComment, anynode.HeadComment, anynode.LineComment
+//@   ensures @returns-input-context implies(result1 == nil, result0 == context)
+//@   loop 1:
+//@     invariant nodeList(lhs.MatchingNodes)
+
+//@ func assignUpdateOperator
+//@   props C02 C07 C11
+//@   nocallframe
+//@   requires validCtx(context) && expressionNode != nil && expressionNode.Operation != nil
+//@   modifies anynode.Content, anynode.Value, anynode.Kind, anynode.Tag, anynode.Alias, anynode.Anchor, anynode.Style, anynode.FootComment, anynode.HeadComment, anynode.LineComment
+//@   ensures @returns-input-context implies(result1 == nil, result0 == context)
+//@   loop 1:
+//@     invariant @nodes nodeList(lhs.MatchingNodes)
+//@     invariant @back-to-front {C02} (el == nil && iter() == len(lhs.MatchingNodes)) || (el != nil && elList(el) == lhs.MatchingNodes && elIdx(el) == len(lhs.MatchingNodes) - 1 - iter())
